@@ -4,7 +4,8 @@ Decides (structure only) - necessary conditions for a documented example to be r
  Y1 every rule id the docs use in a suppression or an output example is an id some linter emits (or an alias / a
     linter prefix of one);
  Y2 every language a linter's page marks as supported is one detect_language can produce and one the rule dispatches;
- Y3 every node kind the TypeScript analyzers of the pattern linters test is a named kind of the linked grammar.
+ Y3 every node kind the TypeScript analyzers of the pattern linters test is a named kind of the linked grammar;
+ Y4 the collecting tree walkers and NodeVisitor methods of the pattern linters never prune a subtree.
 Not decided: whether any particular example is detected, anywhere it is embedded - that is behaviour over programs.
 """
 
@@ -95,6 +96,18 @@ def check(run, ctx):
                 run.finding(Y2, sym, "language-not-dispatched", f"{pg} marks {lang} as supported, but {r.short} only analyses {sorted(handled)}", r.cls.loc)
             else:
                 run.ok(Y2, sym, "detected and dispatched")
+
+    from . import shared
+
+    Y4 = run.rule("Y4", "traversal completeness of the pattern linters: collecting tree walkers recurse into every child and ast.NodeVisitor methods always reach generic_visit", floor=25,
+                  decides="an example is found wherever it is embedded (inside classes, functions and other blocks, any number of times)")
+    for rec in shared.collector_walkers(ctx):
+        (run.ok(Y4, rec["func"], rec["detail"]) if rec["ok"] else run.finding(Y4, rec["func"], "pruned-walk", f"{rec['func']}: {rec['detail']}: examples embedded below such a node are never reported", rec["loc"]))
+    for rec in shared.visitor_methods(ctx):
+        if rec["ok"] is None:
+            run.undecided(Y4, rec["func"], "too many paths")
+        else:
+            (run.ok(Y4, rec["func"], rec["detail"]) if rec["ok"] else run.finding(Y4, rec["func"], "no-generic-visit", f"{rec['func']}: {rec['detail']}: patterns nested inside a matched node are never visited", rec["loc"]))
 
     Y3 = run.rule("Y3", "node-kind literals in the TypeScript analyzers outside nesting are named kinds of the linked grammar", floor=60)
     g = ctx.grammar
